@@ -12,7 +12,7 @@ from mc import driver as D
 PROP = 'C08'
 RULE = ('explicit-state exploration of the real Executor: ALL sequences of d operations (d=3 quick, 4 thorough) over the '
         'operation alphabet (get_cell in numeric / letters+row-text / title-by-name / title-by-index / title-with-numbers spellings, the same Cell '
-        'object reused, get_cells of pairs, get_sheet by index and by title, three set_cells); oracle: a fresh executor with '
+        'object reused, get_cells of pairs, get_sheet by index and by title, four set_cells, a second Executor over the same class overriding and querying in between); oracle: a fresh executor with '
         'the same overrides; invariants: override map = model, sheet sizes = used range extended by overrides, grid = '
         'last_row x last_column entries each equal to the single-cell query.  non-trivial = history with at least two '
         'queries, or a query after an override')
@@ -60,7 +60,7 @@ def mk(addr, how):
 
 
 CELLS = {'A1': ('S', 'A', 1), 'C1': ('S', 'C', 1), 'F1': ('S', 'F', 1), 'A2': ('S', 'A', 2), 'D2': ('S', 'D', 2),
-         'H9': ('S', 'H', 9), 'TB1': ('T 2', 'B', 1), 'K1': ('S', 'K', 1), 'K2': ('S', 'K', 2), 'NB1': ('1', 'B', 1), 'EA1': ('E', 'A', 1), 'EB1': ('E', 'B', 1), 'A3': ('S', 'A', 3), 'AB2': ('S', 'AB', 2), 'E1': ('S', 'E', 1)}
+         'H9': ('S', 'H', 9), 'TB1': ('T 2', 'B', 1), 'K1': ('S', 'K', 1), 'K2': ('S', 'K', 2), 'NB1': ('1', 'B', 1), 'I2': ('S', 'I', 2), 'EA1': ('E', 'A', 1), 'EB1': ('E', 'B', 1), 'A3': ('S', 'A', 3), 'AB2': ('S', 'AB', 2), 'E1': ('S', 'E', 1)}
 
 
 def _ops():
@@ -75,6 +75,7 @@ def _ops():
     ops += [('get_cells', ['C1', 'A1'], 'num'), ('get_cells', ['A1', 'C1'], 'a1'), ('get_cells', ['TB1', 'F1'], 'a1'),
             ('get_cells_same', ['C1'], 'a1')]
     ops += [('get_sheet', 0), ('get_sheet', 'S'), ('get_sheet', 'T 2'), ('get_sheet', 'E'), ('get_sheet', '1'), ('get_sheet', 3)]
+    ops += [('other_executor', 'A1', 77, 'C1'), ('other_executor', 'I2', 0, 'K2')]
     ops += [('set_cells', [('A1', 5)]), ('set_cells', [(('S', 'J', 12), 1)]), ('set_cells', [('EA1', 2), ('A2', 4)]),
             ('set_cells', [('A1', 6), ('AB2', 0)])]
     return ops
@@ -88,7 +89,7 @@ CORE = [i for i, o in enumerate(OPS) if o in (
     ('get_cell', 'A1', 'num'), ('get_cell', 'C1', 'a1'), ('get_cell', 'H9', 'a1'), ('get_cell', 'EA1', 'a1'),
     ('get_cell', 'TB1', 'idx_letters'), ('get_cell', 'AB2', 'a1'), ('get_cell_reused', 'C1', 'a1'), ('get_cells', ['C1', 'A1'], 'num'),
     ('get_cells_same', ['C1'], 'a1'), ('get_sheet', 0), ('get_sheet', 'T 2'), ('get_sheet', 'E'), ('get_sheet', '1'),
-    ('get_cell', 'K1', 'a1'), ('get_cell', 'K2', 'num'), ('get_cell', 'TB1', 'name_num'))
+    ('get_cell', 'K1', 'a1'), ('get_cell', 'K2', 'num'), ('get_cell', 'TB1', 'name_num'), ('other_executor', 'A1', 77, 'C1'))
         or o[0] == 'set_cells']
 
 
@@ -160,11 +161,25 @@ def replay(history, stats):
     inst = ex.get_executed_class()
     model = {}
     reused = {}
+    other = {}
     for step, oi in enumerate(history):
         op = OPS[oi]
         kind = op[0]
         stats['transitions'] += 1
-        if kind == 'set_cells':
+        if kind == 'other_executor':
+            # a second Executor over the same class object: its override and its query are its own business
+            if 'ex' not in other:
+                other['ex'] = D.new_executor(_cls())
+                other['model'] = {}
+            a, q = CELLS[op[1]], CELLS[op[3]]
+            other['ex'].set_cells([D.Cell(TIDX[a[0]], cn(a[1]) - 1, a[2] - 1, value=op[2])])
+            other['model'][a] = op[2]
+            got = _norm(D.eval_cell(other['ex'], TIDX[q[0]], cn(q[1]) - 1, q[2] - 1))
+            exp = expected_value(other['model'], q, stats)
+            stats['validated'] += 1
+            if got != exp:
+                return ('other_executor_value', step, {'cell': q, 'expected': exp, 'got': got})
+        elif kind == 'set_cells':
             ex.set_cells([D.Cell(*[(TIDX[a[0]], cn(a[1]) - 1, a[2] - 1) for a in [addr_of(x)]][0], value=v) for x, v in op[1]])
             for x, v in op[1]:
                 model[addr_of(x)] = v
@@ -240,7 +255,7 @@ def replay(history, stats):
         exp_sizes = [expected_size(model, i) for i in range(len(BASE))]
         if sizes != exp_sizes:
             return ('sizes', step, {'expected': exp_sizes, 'got': sizes})
-        if kind != 'set_cells':
+        if kind not in ('set_cells', 'other_executor'):
             args = {k: repr(v) for k, v in inst._arguments.items()}
             exp_args = {f'_{TIDX[t]}_{cn(c) - 1}_{r - 1}': repr(v) for (t, c, r), v in model.items()}
             if args != exp_args:
